@@ -41,7 +41,7 @@ PROPS = {
         assumptions=["driver-level clauses (decode error observed by every pending operation, unknown op under a live search id) are decided with the connection model (C04 lane); this check covers the decoder", "what the decoder delivers is an envelope (c11_delivered_is_envelope, repair F38); the stray [10] element of Active Directory is tolerated on purpose, as the code says"],
     ),
     "C03": dict(
-        groups=[("result", 2500, 150000), ("respctl", 1500, 100000), ("frame", 300, 20000), ("paged", 200, 10000), ("conn", 300, 20000)],
+        groups=[("result", 2500, 150000), ("respctl", 1500, 100000), ("frame", 300, 20000), ("paged", 200, 10000), ("conn", 300, 20000), ("stream", 600, 30000)],
         exact_lanes=["result", "helpers", "frame", "paged"],
         rule="LDAPResult-bearing responses of the 8 kinds built by an independent encoder (all documented result codes plus 127/128/255/256/65535/65536/2^31-1/2^32-1, "
              "Unicode matched DN / text, 0-4 referral URIs, SASL creds, extended name/value; 1 in 13 malformed) through LdapResult::from; helper predicates for rc 0..300 "
